@@ -724,6 +724,57 @@ func init() {
 		w.ext = &poolExt{items: append(items, a[1])}
 		return nil
 	}
+	// sync.Mutex / RWMutex: single-threaded executor, so the lock is a flag; locking a held lock can never
+	// succeed (deadlock), which is reported
+	lockOp := func(kind string) intrinsicFn {
+		return func(ex *Exec, st *State, fr *Frame, c *ssa.Call, a []Value) Value {
+			p := a[0].(*Ptr)
+			o := st.obj(p.obj)
+			key := fmt.Sprint(p.path)
+			me, _ := o.ext.(*mutexExt)
+			held := me != nil && me.held[key]
+			set := func(v bool) {
+				w := st.wobj(p.obj)
+				n := &mutexExt{held: map[string]bool{}}
+				if me != nil {
+					for k, x := range me.held {
+						n.held[k] = x
+					}
+				}
+				n.held[key] = v
+				w.ext = n
+			}
+			switch kind {
+			case "lock":
+				if held {
+					ex.recordViolation(st, "deadlock", nil, "sync.Mutex locked while already held on this path")
+					ex.endPath("violation:deadlock")
+				}
+				set(true)
+				return nil
+			case "trylock":
+				if held {
+					return mkBool(false)
+				}
+				set(true)
+				return mkBool(true)
+			default:
+				if !held {
+					ex.recordViolation(st, "panic:unlock", nil, "sync: unlock of unlocked mutex")
+					ex.endPath("violation:panic:unlock")
+				}
+				set(false)
+				return nil
+			}
+		}
+	}
+	for _, t := range []string{"(*sync.Mutex)", "(*sync.RWMutex)"} {
+		intrinsics[t+".Lock"] = lockOp("lock")
+		intrinsics[t+".TryLock"] = lockOp("trylock")
+		intrinsics[t+".Unlock"] = lockOp("unlock")
+	}
+	intrinsics["(*sync.RWMutex).RLock"] = lockOp("lock")
+	intrinsics["(*sync.RWMutex).RUnlock"] = lockOp("unlock")
 	intrinsics["(*bytes.Buffer).Len"] = func(ex *Exec, st *State, fr *Frame, c *ssa.Call, a []Value) Value {
 		be, _ := st.obj(a[0].(*Ptr).obj).ext.(*bufExt)
 		if be == nil {
@@ -925,6 +976,10 @@ func (r *readerExt) cloneExt() Ext { n := *r; return &n }
 type bufExt struct{ cells []*Term }
 
 func (b *bufExt) cloneExt() Ext { return &bufExt{cells: append([]*Term(nil), b.cells...)} }
+
+type mutexExt struct{ held map[string]bool }
+
+func (m *mutexExt) cloneExt() Ext { return m }
 
 type poolExt struct{ items []Value }
 
